@@ -2,20 +2,35 @@
 C07 — individuals are conditionally independent and order-equivariant.
 Property theorems only (helper lemmas are private).  Models: `Model/Indep.lean`, `Model/Sampler.lean`.
 
-Honest scope: the Lean part is list algebra over a model in which the batch *is* `List.map` of a
-per-individual function — locality is then true by construction.  The substance of C07 — that the
-batched tensor code of leaspy behaves like that map (bit-identically when other individuals change,
-up to rounding when the batch is reduced to one individual), and that `joblib` process pools do not
-change results — is a runtime fact covered only by the metamorphic runs of `harness/c07_indep.py`.
+Part 1 (list algebra): a model in which the batch *is* `List.map` of a per-individual function —
+locality is true by construction there; it states what "per-individual" means and gives the
+permutation / total / sampler-step lemmas.
+
+Part 2 (recorded programs, `Model/Trace.lean`): the batched tensor code itself.  The harness records
+the torch operations the real code executes for the individual-level quantities and sends them as a
+program; `Trace.lower` classifies every operation (acts row by row on axis 0 / takes its batched
+arguments whole) and `Trace.rowLocal` is the decidable dependence analysis.  The theorems below say
+what `rowLocal p = true` guarantees for EVERY input of the recorded shape, every number of
+individuals and every interpretation of the row operations (so also for float32 kernels that are
+row-wise): alone = in batch, other individuals irrelevant, re-ordering equivariant.  The semantics
+is not local by construction: operations that take arguments `whole` read all rows, and the
+counterexamples at the end show locality failing for recorded programs the analysis rejects.
+What stays outside Lean: that the recorded program is what the code does on other inputs (no
+data-dependent control flow: escapes are flagged, programs of different cohorts are compared), that
+`Trace.lowerOp` / `Trace.fnApply` are faithful to torch (checked by evaluating the lowered program in
+Lean against the real tensors on every run), `joblib` process pools and float rounding of vectorised
+reductions (metamorphic runs of `harness/c07_indep.py`).
 -/
 import LeaspyVerif.Model.Indep
 import LeaspyVerif.Model.Sampler
+import LeaspyVerif.Model.Trace
+import LeaspyVerif.Lemmas.Trace
 import LeaspyVerif.Props.C03
 import Mathlib.Algebra.BigOperators.Group.List.Basic
 import Mathlib.Data.Real.Basic
 
 namespace LeaspyVerif.C07
-open LeaspyVerif.Indep LeaspyVerif.Sampler
+open LeaspyVerif.Indep LeaspyVerif.Sampler LeaspyVerif.Trace
 
 /-- Term locality: the term of individual `j` is the per-individual function of its own record. -/
 theorem term_local {P I α : Type} (term : P → I → α) (pop : P) (cohort : List I) (j : Nat) :
@@ -121,5 +136,137 @@ example : terms (fun (p : ℚ) (x : ℚ × ℚ) => p * x.1 + x.2) 2 (permute [2,
     = permute [2, 0, 1] [2, 4, 7] := by decide +kernel
 
 example : total (α := ℚ) [2, 4, 7] = 13 := by decide +kernel
+
+/-! ## Part 2 — recorded programs -/
+
+section Recorded
+variable {φ ρ : Type}
+
+private theorem outs_of_rowLocal {p : Prog φ} (h : rowLocal p = true) : outsLocal p = true := by
+  unfold rowLocal at h
+  exact (Bool.and_eq_true _ _ ▸ h).1
+
+/-- `rowLocal_rel` — the general form: two evaluations of a row-local program, on any two batches (of any
+    sizes `n`, `n'`) with the same population-level inputs, give output `o` the same row at positions
+    `j` / `j'` as soon as the individual-level inputs have the same rows at `j` / `j'`. -/
+theorem rowLocal_rel (S : Sem φ ρ) (p : Prog φ) (h : rowLocal p = true) (n n' j j' : Nat) (L L' : Inputs ρ)
+    (hpop : ∀ k, L.pop k = L'.pop k) (hind : ∀ k, L.ind k j = L'.ind k j') (o : Nat) (ho : o ∈ p.outs) :
+    outAt S n L p o j = outAt S n' L' p o j' :=
+  outAt_eq_of_type S n n' j j' L L' hpop hind p o (outsLocal_type (outs_of_rowLocal h) ho)
+
+/-- `rowLocal_sound` — alone = in batch: row `j` of every output is what the program gives on the batch that
+    contains individual `j` only. -/
+theorem rowLocal_sound (S : Sem φ ρ) (p : Prog φ) (h : rowLocal p = true) (n : Nat) (L : Inputs ρ) (j : Nat)
+    (o : Nat) (ho : o ∈ p.outs) :
+    outAt S n L p o j = outAt S 1 (L.restrictTo j) p o 0 :=
+  rowLocal_rel S p h n 1 j 0 L (L.restrictTo j) (fun _ => rfl) (fun _ => rfl) o ho
+
+/-- `perturb_others` — changing anything about the other individuals (their data, masks, latent values, draws)
+    leaves row `j` of every output unchanged. -/
+theorem perturb_others (S : Sem φ ρ) (p : Prog φ) (h : rowLocal p = true) (n : Nat) (L L' : Inputs ρ) (j : Nat)
+    (hpop : ∀ k, L.pop k = L'.pop k) (hrow : ∀ k, L.ind k j = L'.ind k j) (o : Nat) (ho : o ∈ p.outs) :
+    outAt S n L p o j = outAt S n L' p o j :=
+  rowLocal_rel S p h n n j j L L' hpop hrow o ho
+
+/-- `batch_size_irrelevant` — adding or removing other individuals (rows after `j` dropped, rows appended) does
+    not change row `j`. -/
+theorem batch_size_irrelevant (S : Sem φ ρ) (p : Prog φ) (h : rowLocal p = true) (n n' : Nat) (L : Inputs ρ)
+    (j : Nat) (o : Nat) (ho : o ∈ p.outs) :
+    outAt S n L p o j = outAt S n' L p o j :=
+  rowLocal_rel S p h n n' j j L L (fun _ => rfl) (fun _ => rfl) o ho
+
+/-- `perm_equivariant` — re-indexing the individuals re-indexes every output the same way (for a permutation
+    `σ`: re-ordering the cohort permutes the per-individual outputs). -/
+theorem perm_equivariant (S : Sem φ ρ) (p : Prog φ) (h : rowLocal p = true) (n : Nat) (L : Inputs ρ)
+    (σ : Nat → Nat) (j : Nat) (o : Nat) (ho : o ∈ p.outs) :
+    outAt S n (L.reindex σ) p o j = outAt S n L p o (σ j) :=
+  rowLocal_rel S p h n n j (σ j) (L.reindex σ) L (fun _ => rfl) (fun _ => rfl) o ho
+
+/-- … in list form: the rows of an output of the re-indexed batch are the re-indexed rows. -/
+theorem perm_equivariant_rows (S : Sem φ ρ) (p : Prog φ) (h : rowLocal p = true) (n : Nat) (L : Inputs ρ)
+    (σ : Nat → Nat) (o : Nat) (ho : o ∈ p.outs) :
+    (List.range n).map (outAt S n (L.reindex σ) p o) = (List.range n).map (fun j => outAt S n L p o (σ j)) :=
+  List.map_congr_left fun j _ => perm_equivariant S p h n L σ j o ho
+
+private theorem lowerFrom_length {α : Type} (nodes : List (TNode α)) :
+    ∀ (infos : List Info) (acc : List (Node (Fn α))),
+      (lowerFrom nodes infos acc).1.length = acc.length + nodes.length ∧
+      (lowerFrom nodes infos acc).2.length = infos.length + nodes.length := by
+  induction nodes with
+  | nil => intro infos acc; simp [lowerFrom]
+  | cons nd rest ih =>
+    intro infos acc
+    simp only [lowerFrom]
+    obtain ⟨h1, h2⟩ := ih (infos ++ [(lowerNode infos nd).2]) (acc ++ [(lowerNode infos nd).1])
+    constructor
+    · rw [h1]; simp; omega
+    · rw [h2]; simp; omega
+
+/-- The lowering keeps one node per recorded operation (node ids of the report are the tracer's). -/
+theorem lower_length {α : Type} (nodes : List (TNode α)) (outs : List Nat) :
+    (lower nodes outs).nodes.length = nodes.length := by
+  simpa [lower] using (lowerFrom_length nodes [] []).1
+
+end Recorded
+
+/-! ### non-vacuity and counterexamples (recorded IR → `lower` → dense rational tensors) -/
+
+/-- a masked squared error, as recorded: `(mask * (y - mu)^2).sum(dim=1)` with `y`, `mask` of shape `(n, 3)`
+    (individual-level) and `mu` of shape `(3,)` (population-level) -/
+def exMasked : List (TNode Rat) :=
+  [.ind 0 [2, 3], .ind 1 [2, 3], .pop 0 [3],
+   .op (.ew .sub) [0, 2] [2, 3], .op (.ew .mul) [3, 3] [2, 3], .op (.ew .mul) [1, 4] [2, 3],
+   .op (.red .sum [-1] false) [5] [2]]
+
+/-- centring by the batch: `x - x.sum(dim=0, keepdim=True)` -/
+def exCentre : List (TNode Rat) :=
+  [.ind 0 [2, 2], .op (.red .sum [0] true) [0] [1, 2], .op (.ew .sub) [0, 1] [2, 2]]
+
+/-- a per-individual scalar `w` of shape `(n,)` multiplied into `x` of shape `(n, 2)`: torch aligns `w` with
+    the LAST axis of `x`, so row `i` of the product uses the scalars of all individuals -/
+def exMisaligned : List (TNode Rat) :=
+  [.ind 0 [2, 2], .ind 1 [2], .op (.ew .mul) [0, 1] [2, 2]]
+
+def t22 (a b c d : Rat) : Tn Rat := ⟨[2, 2], #[a, b, c, d]⟩
+
+/-- the analysis accepts the masked squared error … -/
+theorem exMasked_rowLocal : rowLocal (lower exMasked [6]) = true := by decide +kernel
+
+/-- … whose value is what it should be: individual 0 has `(1-1)² + (3-2)² + masked = 1`, individual 1 has
+    `0 + (0-2)² + (6-3)² = 13`; and individual 1 alone gives 13 as well (instance of `rowLocal_sound`). -/
+theorem exMasked_value :
+    let L := inputsOf [⟨[3], #[1, 2, 3]⟩] [⟨[2, 3], #[1, 3, 9, 1, 0, 6]⟩, ⟨[2, 3], #[1, 1, 0, 0, 1, 1]⟩] []
+    (List.range 2).map (outAt (tensorSem ratOps) 2 L (lower exMasked [6]) 6) = [some ⟨[], #[1]⟩, some ⟨[], #[13]⟩] ∧
+    outAt (tensorSem ratOps) 1 (L.restrictTo 1) (lower exMasked [6]) 6 0 = some ⟨[], #[13]⟩ := by
+  decide +kernel
+
+/-- Batch centring is rejected, and rightly so: two batches that agree on individual 0 give it different rows. -/
+theorem axis0_sum_counterexample :
+    let p := lower exCentre [2]
+    let A := inputsOf [] [t22 1 2 3 4] []
+    let B := inputsOf [] [t22 1 2 5 6] []
+    rowLocal p = false ∧ A.ind 0 0 = B.ind 0 0 ∧
+    outAt (tensorSem ratOps) 2 A p 2 0 = some ⟨[2], #[-3, -4]⟩ ∧
+    outAt (tensorSem ratOps) 2 B p 2 0 = some ⟨[2], #[-5, -6]⟩ := by
+  decide +kernel
+
+/-- … and the individual alone does not get its in-batch row either. -/
+theorem axis0_sum_alone_counterexample :
+    let p := lower exCentre [2]
+    let A := inputsOf [] [t22 1 2 3 4] []
+    outAt (tensorSem ratOps) 2 A p 2 0 ≠ outAt (tensorSem ratOps) 1 (A.restrictTo 0) p 2 0 := by
+  decide +kernel
+
+/-- A rank-1 individual-level operand broadcast against a rank-2 one is rejected: the row of individual 0
+    changes with the scalar of individual 1.  (The lowered value is unbatched — the whole `(2, 2)` tensor —
+    so its row 0 is taken with `rowOf`.) -/
+theorem misaligned_broadcast_counterexample :
+    let p := lower exMisaligned [2]
+    let A := inputsOf [] [t22 1 1 1 1, ⟨[2], #[2, 3]⟩] []
+    let B := inputsOf [] [t22 1 1 1 1, ⟨[2], #[2, 7]⟩] []
+    rowLocal p = false ∧ A.ind 0 0 = B.ind 0 0 ∧ A.ind 1 0 = B.ind 1 0 ∧
+    (outAt (tensorSem ratOps) 2 A p 2 0).map (rowOf · 0) = some ⟨[2], #[2, 3]⟩ ∧
+    (outAt (tensorSem ratOps) 2 B p 2 0).map (rowOf · 0) = some ⟨[2], #[2, 7]⟩ := by
+  decide +kernel
 
 end LeaspyVerif.C07
